@@ -1,6 +1,7 @@
 package main
 
 import (
+	"go/parser"
 	"fmt"
 	"go/ast"
 	"go/token"
@@ -609,18 +610,89 @@ func (c *FuncCtx) evalCall(st *State, n *ast.CallExpr) []Value {
 		key := funcObjKey(o)
 		con, ok := c.prog.Contracts[key]
 		fi, ok2 := c.prog.Funcs[key]
+		if !ok && recvExpr != nil {
+			// a method of an interface: the contract is on the interface type of the receiver
+			// (`func PRNG.Read` in the package that declares PRNG)
+			if named, isN := c.typeOf(recvExpr).(*types.Named); isN && named.Obj().Pkg() != nil {
+				if _, isI := named.Underlying().(*types.Interface); isI {
+					ik := named.Obj().Pkg().Path() + "." + named.Obj().Name() + "." + o.Name()
+					if icon, okI := c.prog.Contracts[ik]; okI {
+						if !icon.Trusted {
+							panic(verr("contract for the interface method %s must be marked trusted", ik))
+						}
+						con, ok, key = icon, true, ik
+						fi, ok2 = &FuncInfo{Key: ik, Pkg: c.pkg, Obj: o}, true
+					}
+				}
+			}
+		}
+		if !ok || !ok2 {
+			// a function or interface method outside the module under an assumed contract
+			// (`func ext:io.Reader.Read`): keyed by its full name
+			ek := strings.Replace(strings.TrimPrefix(o.FullName(), "("), ").", ".", 1)
+			ek = strings.TrimPrefix(ek, "*")
+			if econ, okE := c.prog.Contracts[ek]; okE {
+				if !econ.Trusted {
+					panic(verr("contract for the external function %s must be marked trusted", ek))
+				}
+				con, ok, key = econ, true, ek
+				fi, ok2 = &FuncInfo{Key: ek, Pkg: c.pkg, Obj: o}, true
+			}
+		}
 		if !ok || !ok2 {
 			panic(verr("call to %s which has no contract, at %s", key, c.prog.pos(n)))
 		}
 		var recv Value
 		if recvExpr != nil {
-			recv = c.eval(st, recvExpr)
+			if fi.Decl == nil {
+				// external receiver (an interface value, a package-level variable): opaque
+				recv = OpaqueV{Desc: exprString(recvExpr), T: c.typeOf(recvExpr)}
+			} else {
+				recv = c.eval(st, recvExpr)
+			}
 		}
 		args := make([]Value, len(n.Args))
 		for i, a := range n.Args {
 			args[i] = c.eval(st, a)
 		}
 		return c.callContract(st, con, fi, recv, args, n)
+	case *types.Var:
+		// a call through a function-typed parameter: the result is unknown (of its type), the
+		// arguments owe the `fnparam` clauses of the contract
+		if sig, ok := o.Type().Underlying().(*types.Signature); ok && sig.Results().Len() == 1 {
+			args := make([]Value, len(n.Args))
+			for i, a := range n.Args {
+				args[i] = c.eval(st, a)
+			}
+			bind := map[string]Value{}
+			for i := 0; i < sig.Params().Len() && i < len(args); i++ {
+				bind[sig.Params().At(i).Name()] = args[i]
+			}
+			for i, raw := range c.con.Raw["fnparam"] {
+				// fnparam <name> requires <expr over the parameter names of the function type>
+				f := strings.Fields(raw)
+				if len(f) < 3 || f[0] != o.Name() || f[1] != "requires" {
+					continue
+				}
+				x, err := parser.ParseExpr(strings.TrimSpace(strings.SplitN(raw, "requires", 2)[1]))
+				if err != nil {
+					panic(verr("%s: bad fnparam clause %q", c.con.File, raw))
+				}
+				var facts []*Term
+				se := c.specEnv(st, &facts)
+				nb := map[string]Value{}
+				for k, v := range se.bound {
+					nb[k] = v
+				}
+				for k, v := range bind {
+					nb[k] = v
+				}
+				se.bound = nb
+				c.oblige(st, "fnparam", fmt.Sprintf("%s.%d", o.Name(), i), se.Bool(x), n, facts...)
+			}
+			rt := sig.Results().At(0).Type()
+			return []Value{c.symValue(st, c.freshName("call."+o.Name()), rt)}
+		}
 	}
 	panic(verr("unsupported call %s at %s", exprString(n.Fun), c.prog.pos(n)))
 }
@@ -804,6 +876,9 @@ func (c *FuncCtx) evalBits(st *State, n *ast.CallExpr, name string) []Value {
 }
 
 func recvName(fd *ast.FuncDecl) string {
+	if fd == nil {
+		return "this"
+	}
 	if fd.Recv != nil && len(fd.Recv.List) > 0 && len(fd.Recv.List[0].Names) > 0 {
 		return fd.Recv.List[0].Names[0].Name
 	}
